@@ -7,7 +7,13 @@
 (*  - all `&mut self` calls of the registry are possible only while no     *)
 (*    guard is alive (rustc enforces that; mirrored so that every model    *)
 (*    behaviour is executable);                                            *)
-(*  - try_get_multiple_mut / get_multiple_mut (src/state/registry/multi.rs)*)
+(*  - try_get_multiple_mut / get_multiple_mut and the tuple trait's own     *)
+(*    entry points (src/state/registry/multi.rs), on the registry or an    *)
+(*    ancestor;                                                            *)
+(*  - the convenience accessors of State (src/state/mod.rs: iterations,    *)
+(*    evaluations, best_individual, best_objective_value, populations,     *)
+(*    populations_mut, random_mut, log) as forms of acquire / read / write *)
+(*    (tables AccSh .. AccType in Registry.tla);                           *)
 (*  - State::holding (src/state/mod.rs): take T out of the scope that      *)
 (*    holds it, run a body next to the rest of the state, put T back into  *)
 (*    the scope it came from whether or not the body fails.                *)
@@ -35,10 +41,11 @@ CanEx(i, t) == OnCell(i, t) = {}
 FreeSlots == {g \in Slots : ~Live(g)}
 MinOf(S) == CHOOSE x \in S : \A y \in S : x <= y
 
-ShForms == {"try_borrow", "borrow", "try_borrow_value", "borrow_value", "try_get_value", "get_value"}
-ExForms == {"try_borrow_mut", "borrow_mut", "try_borrow_value_mut", "borrow_value_mut"}
+ShForms == {"try_borrow", "borrow", "try_borrow_value", "borrow_value", "try_get_value", "get_value"} \cup AccSh
+ExForms == {"try_borrow_mut", "borrow_mut", "try_borrow_value_mut", "borrow_value_mut"} \cup AccEx
 KindOf(f) == IF f \in ExForms THEN "ex" ELSE "sh"
-Refused(f) == IF f \in PanicForms THEN R("panic", NoVal)
+Refused(f) == IF f \in AccOption THEN R("none", NoVal)
+              ELSE IF f \in PanicForms \cup AccPanic THEN R("panic", NoVal)
               ELSE IF f \in ExForms THEN R("conflict_mut", NoVal) ELSE R("conflict_imm", NoVal)
 Grantable(i, t, f) == IF KindOf(f) = "ex" THEN CanEx(i, t) ELSE CanSh(i, t)
 
@@ -95,20 +102,29 @@ SetValueB(t, v, d) ==        \* a conflict is reported as None, nothing changes
 Range(s) == {s[j] : j \in 1..Len(s)}
 HasDup(ts) == \E j, k \in 1..Len(ts) : j # k /\ ts[j] = ts[k]
 
-RECURSIVE WriteAll(_, _, _, _)
-WriteAll(s, ts, vs, j) ==
-    IF j > Len(ts) THEN s
-    ELSE LET i == Find(ts[j], Len0) IN
-         WriteAll([s EXCEPT ![i][ts[j]] = vs[j]], ts, vs, j + 1)
+\* the public entry points: the two registry methods, the tuple trait's own `try_get_mut` (a safe public method of
+\* the public trait MultiStateTuple) and its `distinct` predicate; all of them callable on the registry itself or on
+\* an ancestor reached through parent_mut() (d > 0)
+MultiForms == {"try_get_multiple_mut", "get_multiple_mut", "tuple_try_get_mut", "tuple_distinct"}
 
-MultiMut(ts, vs, f) ==       \* f = "try_get_multiple_mut" | "get_multiple_mut"
+RECURSIVE WriteAll(_, _, _, _, _)
+WriteAll(s, ts, vs, j, top) ==
+    IF j > Len(ts) THEN s
+    ELSE LET i == Find(ts[j], top) IN
+         WriteAll([s EXCEPT ![i][ts[j]] = vs[j]], ts, vs, j + 1, top)
+
+MultiMut(ts, vs, f, d) ==
     /\ UNCHANGED <<guards, held>>
-    /\ IF HasDup(ts) THEN
-            res' = R(IF f = "get_multiple_mut" THEN "panic" ELSE "duplicate", NoVal) /\ UNCHANGED scopes
-       ELSE IF \E j \in 1..Len(ts) : Find(ts[j], Len0) = 0 THEN
-            res' = R(IF f = "get_multiple_mut" THEN "panic" ELSE "notfound", NoVal) /\ UNCHANGED scopes
+    /\ IF f = "tuple_distinct" THEN
+            res' = R("bool", IF HasDup(ts) THEN 0 ELSE 1) /\ UNCHANGED scopes
+       ELSE IF HasDup(ts) \/ \E j \in 1..Len(ts) : Find(ts[j], View(d)) = 0 THEN
+            \* refused; WHICH error is reported for a tuple that both repeats a type and names a missing one is open
+            /\ res' \in {R(IF f = "get_multiple_mut" THEN "panic" ELSE k, NoVal) :
+                            k \in (IF HasDup(ts) THEN {"duplicate"} ELSE {})
+                                   \cup (IF \E j \in 1..Len(ts) : Find(ts[j], View(d)) = 0 THEN {"notfound"} ELSE {})}
+            /\ UNCHANGED scopes
        ELSE \* v = 1: the references were pairwise distinct objects and each write read back
-            res' = R("ok", 1) /\ scopes' = WriteAll(scopes, ts, vs, 1)
+            res' = R("ok", 1) /\ scopes' = WriteAll(scopes, ts, vs, 1, View(d))
 
 ---------------------------------------------------------------------------
 (* holding: take out, run body, put back                                    *)
@@ -150,7 +166,7 @@ DoB(a) ==
       [] a.op = "read"      -> act' = a /\ TempRead(a.t, a.d, a.f)
       [] a.op = "write"     -> act' = a /\ TempWrite(a.t, a.v, a.d, a.f)
       [] a.op = "set_value" -> act' = a /\ SetValueB(a.t, a.v, a.d)
-      [] a.op = "multi"     -> act' = a /\ MultiMut(a.ts, a.vs, a.f)
+      [] a.op = "multi"     -> act' = a /\ MultiMut(a.ts, a.vs, a.f, a.d)
       [] a.op = "hold_enter" -> act' = a /\ HoldEnter(a.t)
       [] a.op = "hold_write" -> act' = a /\ HoldWrite(a.v)
       [] a.op = "hold_exit"  -> act' = a /\ HoldExit(a.f)
@@ -158,11 +174,16 @@ DoB(a) ==
       [] OTHER -> Do(a) /\ UNCHANGED <<guards, held>>      \* plain registry call
 
 (* what the caller can issue in the current state *)
+AccHere == {f \in AccForms : AccType(f) \in Type}      \* the accessors whose type is part of the universe
 SharedActs ==
     {BA("acquire", t, NoVal, NoVal, d, f, <<>>, <<>>) :
-         t \in Type, d \in Depths, f \in (ShForms \cup ExForms) \ {"try_get_value", "get_value"}}
+         t \in Type, d \in Depths, f \in ((ShForms \cup ExForms) \ AccForms) \ {"try_get_value", "get_value"}}
     \cup {BA("read", t, NoVal, NoVal, d, f, <<>>, <<>>) : t \in Type, d \in Depths, f \in ReadForms}
     \cup {BA("write", t, v, NoVal, d, f, <<>>, <<>>) : t \in Type, v \in Val, d \in Depths, f \in WriteForms}
+    \* the convenience accessors: kept (those that return a guard), used and dropped at once, written through
+    \cup {BA("acquire", AccType(f), NoVal, NoVal, 0, f, <<>>, <<>>) : f \in AccHere \cap AccGuard}
+    \cup {BA("read", AccType(f), NoVal, NoVal, 0, f, <<>>, <<>>) : f \in AccHere}
+    \cup {BA("write", AccType(f), v, NoVal, 0, f, <<>>, <<>>) : f \in AccHere \cap AccEx, v \in Val}
     \cup {BA("set_value", t, v, NoVal, d, "-", <<>>, <<>>) : t \in Type, v \in Val, d \in Depths}
     \cup {BA("contains", t, NoVal, NoVal, d, "-", <<>>, <<>>) : t \in Type, d \in Depths}
     \cup {BA("release", NoT, g, NoVal, 0, "-", <<>>, <<>>) : g \in {x \in Slots : Live(x)}}
@@ -172,8 +193,8 @@ SharedActs ==
 
 MutActs ==
     {Lift(a) : a \in {x \in Acts : x.op \in RegistryMutOps}}
-    \cup {BA("multi", NoT, NoVal, NoVal, 0, f, ts, [j \in 1..Len(ts) |-> (j % 2)]) :
-             ts \in Tuples, f \in {"try_get_multiple_mut", "get_multiple_mut"}}
+    \cup {BA("multi", NoT, NoVal, NoVal, d, f, ts, [j \in 1..Len(ts) |-> (j % 2)]) :
+             ts \in Tuples, f \in MultiForms, d \in Depths}
     \cup {BA("hold_enter", t, NoVal, NoVal, 0, "-", <<>>, <<>>) : t \in Type}
     \cup {BA("inner", t, v, NoVal, 0, f, <<>>, <<>>) : t \in Type, v \in Val, f \in {"ok", "fail"}}
     \cup (IF Len(held) > 0
@@ -217,7 +238,7 @@ GrantDependsOnlyOnCell ==
               i == Innermost(scopes, t, Len0 - act'.d)
               ex == act'.f \in ExForms \/ act'.op = "write"
               compatible == IF ex THEN OnCell(i, t) = {} ELSE ExOn(i, t) = {} IN
-          IF i = 0 THEN res'.k \in {"notfound", "panic"}
+          IF i = 0 THEN res'.k \in {"notfound", "panic", "none"}
           ELSE /\ (res'.k = "ok") <=> compatible
                /\ res'.k = "ok" => res'.v = scopes[i][t] ]_bvars
 
@@ -226,9 +247,33 @@ GrantDependsOnlyOnCell ==
 ConflictsAreErrors ==
     [][ res'.k \in {"conflict_imm", "conflict_mut", "notfound", "duplicate", "panic"} =>
           /\ scopes' = scopes /\ guards' = guards /\ held' = held
-          /\ res'.k = "panic" => act'.f \in PanicForms \cup {"take", "get_multiple_mut"}
+          /\ res'.k = "panic" => act'.f \in PanicForms \cup AccPanic \cup {"take", "get_multiple_mut"}
           /\ res'.k = "conflict_imm" => act'.f \in ShForms
           /\ res'.k = "conflict_mut" => act'.f \in ExForms ]_bvars
+
+\* the convenience accessors of State: each looks up ITS type, resolves it to the innermost binding, needs exactly
+\* the borrow mode it is documented with (a reader is served next to any number of shared guards, a writer only
+\* alone), hands out / uses a guard of that mode, and refuses the way its signature says: None from the Option
+\* readers, a panic from the wrappers of the panicking forms -- never the other way round, and nothing changes
+AccessorsSound ==
+    [][ act'.f \in AccForms =>
+          LET f == act'.f
+              t == AccType(f)
+              i == Innermost(scopes, t, Len0)
+              compatible == IF f \in AccEx THEN OnCell(i, t) = {} ELSE ExOn(i, t) = {} IN
+          /\ act'.t = t /\ act'.d = 0 /\ held' = held
+          /\ (res'.k = "ok") <=> (i # 0 /\ compatible)
+          /\ res'.k = "ok" => res'.v = scopes[i][t]
+          /\ res'.k # "ok" => /\ res'.k = (IF f \in AccOption THEN "none" ELSE "panic")
+                              /\ scopes' = scopes /\ guards' = guards
+          /\ act'.op = "read" => scopes' = scopes /\ guards' = guards
+          /\ act'.op = "write" => /\ f \in AccEx /\ guards' = guards
+                                  /\ res'.k = "ok" => scopes'[i][t] = act'.v
+          /\ (act'.op = "acquire" /\ res'.k = "ok") =>
+                /\ f \in AccGuard /\ scopes' = scopes
+                /\ \E g \in Slots : /\ ~Live(g)
+                                     /\ guards'[g] = [i |-> i, t |-> t, k |-> IF f \in AccEx THEN "ex" ELSE "sh"]
+                                     /\ \A h \in Slots \ {g} : guards'[h] = guards[h] ]_bvars
 
 \* set_value under a conflicting guard replies None and changes nothing
 SetValueRespectsGuards ==
@@ -255,18 +300,23 @@ ReadViaExact ==
     [][ act'.op = "read_via" => res'.v = scopes[guards[act'.v].i][guards[act'.v].t]
                                 /\ scopes' = scopes ]_bvars
 
-\* multi-borrow: fails iff a type repeats or is missing; else distinct objects, innermost bindings
+\* multi-borrow: fails iff a type repeats or is missing -- through every public entry point; else distinct objects,
+\* each member the innermost binding of its type in the caller's view, whatever the order of the members
 MultiBorrowSound ==
     [][ act'.op = "multi" =>
           LET ts == act'.ts
+              top == Len0 - act'.d
               dup == \E j, k \in 1..Len(ts) : j # k /\ ts[j] = ts[k]
-              missing == \E j \in 1..Len(ts) : Innermost(scopes, ts[j], Len0) = 0 IN
+              missing == \E j \in 1..Len(ts) : Innermost(scopes, ts[j], top) = 0 IN
+          IF act'.f = "tuple_distinct" THEN res' = R("bool", IF dup THEN 0 ELSE 1) /\ scopes' = scopes
+          ELSE
           /\ (res'.k = "ok") <=> (~dup /\ ~missing)
-          /\ dup => res'.k \in {"duplicate", "panic"}
+          /\ (dup /\ ~missing) => res'.k \in {"duplicate", "panic"}
+          /\ res'.k = "duplicate" => dup
           /\ res'.k = "ok" =>
                 /\ res'.v = 1
-                /\ \A j \in 1..Len(ts) : scopes'[Innermost(scopes, ts[j], Len0)][ts[j]] = act'.vs[j]
-                /\ \A c \in Cells : (\A j \in 1..Len(ts) : c # <<Innermost(scopes, ts[j], Len0), ts[j]>>)
+                /\ \A j \in 1..Len(ts) : scopes'[Innermost(scopes, ts[j], top)][ts[j]] = act'.vs[j]
+                /\ \A c \in Cells : (\A j \in 1..Len(ts) : c # <<Innermost(scopes, ts[j], top), ts[j]>>)
                                        => scopes'[c[1]][c[2]] = scopes[c[1]][c[2]] ]_bvars
 
 \* holding: the state is taken from the innermost scope holding it and comes back into
